@@ -6,6 +6,7 @@ import (
 	"fmt"
 	"io"
 
+	"perun.network/go-perun/wire"
 	"verif/engine/report"
 	"verif/harness/codec/cat"
 )
@@ -36,7 +37,7 @@ func envSubject(e cat.Envelope, s cat.Ser) subject {
 	return subject{kind: "envelope", ser: s.String(), typ: e.Msg, name: e.Name, stable: s == cat.Native,
 		fresh: func() interface{} { return e.New() },
 		enc: func(v interface{}) ([]byte, error, bool) {
-			b, _, err, p := encodeEnv(s, v.(interface{ envelope() }).(*envWrap).e)
+			b, _, err, p := encodeEnv(s, v.(*wire.Envelope))
 			return b, err, p
 		},
 		dec: func(r io.Reader) (interface{}, error, bool) {
@@ -44,11 +45,6 @@ func envSubject(e cat.Envelope, s cat.Ser) subject {
 			return env, err, p
 		}}
 }
-
-// envWrap only exists so that subject.enc has one signature for both kinds.
-type envWrap struct{ e interface{} }
-
-func (*envWrap) envelope() {}
 
 func valSubject(v cat.Value) subject {
 	return subject{kind: "value", ser: "value", typ: v.Type, name: v.Name, stable: true,
@@ -144,7 +140,7 @@ func (h *c14) check(s, partner subject) interface{} {
 		switch {
 		case e1 != nil:
 			h.violate(s, "consumed-wrong", "", fmt.Sprintf("first message of enc(v1)||enc(v2)||sentinel does not decode although enc(v1) alone does: %v (panic=%v)", e1, p1))
-		case len(structDiff(s.fresh(), d1)) != len(structDiff(s.fresh(), d)):
+		case len(structDiff(d, d1)) > 0:
 			h.violate(s, "consumed-wrong", "", "first message of enc(v1)||enc(v2)||sentinel decodes to a different value than from enc(v1) alone: "+diffPaths(structDiff(d, d1)))
 		case rd.pos != len(b):
 			h.violate(s, "consumed-wrong", "", fmt.Sprintf("first message of the stream: decoder consumed %d bytes, the encoding has %d", rd.pos, len(b)))
